@@ -1,4 +1,4 @@
-import QP.Proofs.C03Internal
+import QP.Proofs.C03Tracks
 /-!
 # Property theorems for C03 — declared parameters suffice, declared constraints are enforced
 
@@ -80,5 +80,261 @@ theorem sufficient (pt : PT) (kv : List (String × Rat)) (mm : Option (List (MNa
       rcases bind_err.mp he with he | ⟨_, _, he⟩
       · exact this.2 he
       · cases he
+
+/-! ## constraints -/
+
+/-- instantiation tracks the visible entries (`_create_program` level) -/
+theorem compile_tracks (pt : PT) (σ : Scope) (mm : List (MName × Option MName)) (cm : List (Chan × Option Chan))
+    (trafo : Chain) (single : List String) :
+    Tracks (compile pt ⟨σ, mm, cm, trafo, single⟩) (visOutcome (visible pt σ)) := by
+  unfold compile
+  exact wrapSingle_tracks (int_tracks pt σ mm cm trafo single) (int_tracks pt σ mm cm [] single)
+
+theorem createProgram_tracks (pt : PT) (kv : List (String × Rat)) (mm : Option (List (MName × Option MName)))
+    (cmUser : List (Chan × Option Chan)) (single : List String) :
+    Tracks (createProgram pt kv mm cmUser single) (visOutcome (visible pt (.dict kv))) := by
+  unfold createProgram topCtx
+  dsimp only
+  split
+  · exact tracks_error (by simp) _
+  · simp only [ok_bind]
+    exact tracks_bind_last (compile_tracks pt (.dict kv) _ _ [] single) (fun _ _ => avoid_pure _)
+
+/-- what the judge's verdict means: every visible entry evaluates and every visible constraint is true -/
+theorem visOutcome_ok_iff (l : List Vis) :
+    visOutcome l = .ok () ↔ ∀ v ∈ l, ∃ x, v.scope.eval v.expr = .ok x ∧ (v.isCons = true → x ≠ 0) := by
+  induction l with
+  | nil => simp
+  | cons v l ih =>
+    rw [visOutcome_cons]
+    constructor
+    · intro h
+      obtain ⟨u, hu, h⟩ := bind_ok.mp h
+      unfold checkVis at hu
+      obtain ⟨x, hx, hu⟩ := bind_ok.mp hu
+      intro w hw
+      rcases List.mem_cons.mp hw with rfl | hw
+      · refine ⟨x, hx, fun hc hx0 => ?_⟩
+        simp [hc, hx0] at hu
+      · exact ih.mp h w hw
+    · intro h
+      obtain ⟨x, hx, hc⟩ := h v (by simp)
+      have : checkVis v = .ok () := by
+        unfold checkVis
+        rw [hx]
+        simp only [ok_bind]
+        split
+        · rename_i hbad
+          exact absurd hbad.2 (hc hbad.1)
+        · rfl
+      rw [this]
+      simp only [ok_bind]
+      exact ih.mpr (fun w hw => h w (by simp [hw]))
+
+/-- the judge raises a constraint violation exactly when the first visible entry that is not fine is a
+constraint evaluating to false -/
+theorem visOutcome_cv_iff (l : List Vis) :
+    visOutcome l = .error .constraintViolation ↔
+      ∃ pre v post, l = pre ++ v :: post ∧ visOutcome pre = .ok () ∧ v.isCons = true ∧ v.scope.eval v.expr = .ok 0 := by
+  induction l with
+  | nil =>
+    constructor
+    · intro h; cases h
+    · rintro ⟨pre, v, post, h, _⟩
+      cases pre <;> cases h
+  | cons w l ih =>
+    rw [visOutcome_cons]
+    constructor
+    · intro h
+      rcases bind_err.mp h with h | ⟨u, hu, h⟩
+      · refine ⟨[], w, l, rfl, rfl, ?_⟩
+        unfold checkVis at h
+        rcases bind_err.mp h with h | ⟨x, hx, h⟩
+        · exact absurd rfl (avoid_iff.mp (eval_noCV w.scope w.expr) _ h)
+        · split at h
+          · rename_i hc
+            exact ⟨hc.1, by rw [hx, hc.2]⟩
+          · cases h
+      · obtain ⟨pre, v, post, hl, hpre, hv⟩ := ih.mp h
+        refine ⟨w :: pre, v, post, by rw [hl]; rfl, ?_, hv⟩
+        rw [visOutcome_cons, hu, ok_bind]
+        exact hpre
+    · rintro ⟨pre, v, post, hl, hpre, hc, hv⟩
+      cases pre with
+      | nil =>
+        simp only [List.nil_append, List.cons.injEq] at hl
+        obtain ⟨rfl, rfl⟩ := hl
+        have : checkVis w = .error .constraintViolation := by
+          unfold checkVis
+          rw [hv]
+          simp [hc]
+        rw [this]
+        rfl
+      | cons p pre =>
+        simp only [List.cons_append, List.cons.injEq] at hl
+        obtain ⟨rfl, rfl⟩ := hl
+        rw [visOutcome_cons] at hpre
+        obtain ⟨u, hu, hpre⟩ := bind_ok.mp hpre
+        rw [hu, ok_bind]
+        exact ih.mpr ⟨pre, v, post, rfl, hpre, hc, hv⟩
+
+/-- **A program only if all constraints hold.** If instantiation returns (a program, or nothing to play), then
+every constraint of every visited node evaluates true in the scope that node sees — after all enclosing
+mappings and loop indices — and everything a visited node needs (`visibleNeeds`) could be evaluated. -/
+theorem constraints_enforced (pt : PT) (kv : List (String × Rat)) (mm : Option (List (MName × Option MName)))
+    (cmUser : List (Chan × Option Chan)) (single : List String) (prog : Option Loop)
+    (h : createProgram pt kv mm cmUser single = .ok prog) :
+    AllTrue (visibleConstraints pt (.dict kv)) ∧
+    (∀ se ∈ visibleNeeds pt (.dict kv), ∃ x, se.1.eval se.2 = .ok x) := by
+  have hok := (visOutcome_ok_iff _).mp ((createProgram_tracks pt kv mm cmUser single).1 prog h)
+  constructor
+  · intro se hse
+    obtain ⟨v, hv, hc, rfl⟩ := mem_visibleConstraints.mp hse
+    obtain ⟨x, hx, hx0⟩ := hok v hv
+    exact ⟨x, hx, hx0 hc⟩
+  · intro se hse
+    unfold visibleNeeds at hse
+    obtain ⟨v, hv, rfl⟩ := List.mem_map.mp hse
+    obtain ⟨x, hx, _⟩ := hok v (List.mem_filter.mp hv).1
+    exact ⟨x, hx⟩
+
+/-- **A violation only if a constraint is false, and nothing visible failed before it.** If instantiation
+raises `ParameterConstraintViolation`, the first entry (in visiting order) among the constraints and needed
+expressions of the visited nodes that is not fine is a constraint that evaluates to false in the scope its node
+sees. -/
+theorem violation_sound (pt : PT) (kv : List (String × Rat)) (mm : Option (List (MName × Option MName)))
+    (cmUser : List (Chan × Option Chan)) (single : List String)
+    (h : createProgram pt kv mm cmUser single = .error .constraintViolation) :
+    ∃ pre v post, visible pt (.dict kv) = pre ++ v :: post ∧ visOutcome pre = .ok () ∧ v.isCons = true ∧
+      v.scope.eval v.expr = .ok 0 :=
+  (visOutcome_cv_iff _).mp ((createProgram_tracks pt kv mm cmUser single).2 h)
+
+/-- **Never rejects a satisfying assignment**: if every constraint of every visited node evaluates true,
+instantiation does not raise `ParameterConstraintViolation`. -/
+theorem never_rejects_satisfying (pt : PT) (kv : List (String × Rat)) (mm : Option (List (MName × Option MName)))
+    (cmUser : List (Chan × Option Chan)) (single : List String)
+    (h : AllTrue (visibleConstraints pt (.dict kv))) :
+    createProgram pt kv mm cmUser single ≠ .error .constraintViolation := by
+  intro hcv
+  obtain ⟨pre, v, post, hl, _, hc, hv⟩ := violation_sound pt kv mm cmUser single hcv
+  obtain ⟨x, hx, hx0⟩ := h (v.scope, v.expr) (mem_visibleConstraints.mpr ⟨v, by rw [hl]; simp, hc, rfl⟩)
+  rw [hv] at hx
+  cases hx
+  exact hx0 rfl
+
+/-- **The equivalence.** Whenever instantiation does not fail for another reason (its outcome is a program or a
+constraint violation), it raises the constraint violation exactly if some visited node has a constraint that
+evaluates false in the scope it sees.
+(Full strength, not proved here: the hypothesis could be weakened to "the template without its constraints
+instantiates"; the forward direction without any hypothesis is `violation_sound`.) -/
+theorem constraint_iff (pt : PT) (kv : List (String × Rat)) (mm : Option (List (MName × Option MName)))
+    (cmUser : List (Chan × Option Chan)) (single : List String)
+    (hno : ∀ e, createProgram pt kv mm cmUser single = .error e → e = .constraintViolation) :
+    createProgram pt kv mm cmUser single = .error .constraintViolation ↔
+      SomeFalse (visibleConstraints pt (.dict kv)) := by
+  constructor
+  · intro h
+    obtain ⟨pre, v, post, hl, _, hc, hv⟩ := violation_sound pt kv mm cmUser single h
+    exact ⟨(v.scope, v.expr), mem_visibleConstraints.mpr ⟨v, by rw [hl]; simp, hc, rfl⟩, hv⟩
+  · rintro ⟨se, hse, hfalse⟩
+    cases hr : createProgram pt kv mm cmUser single with
+    | error e => rw [hno e hr]
+    | ok prog =>
+      obtain ⟨x, hx, hx0⟩ := (constraints_enforced pt kv mm cmUser single prog hr).1 se hse
+      rw [hfalse] at hx
+      cases hx
+      exact absurd rfl hx0
+
+/-- **A missing parameter never yields a program.** If an expression that a visited node evaluates
+unconditionally (a constraint, a repetition count, a loop bound, a constant duration, a table entry, an eagerly
+mapped parameter) cannot be evaluated in the scope the node sees — in particular because a parameter it needs is
+missing — instantiation fails; it never returns a program. -/
+theorem missing_never_program (pt : PT) (kv : List (String × Rat)) (mm : Option (List (MName × Option MName)))
+    (cmUser : List (Chan × Option Chan)) (single : List String)
+    (h : ∃ v ∈ visible pt (.dict kv), ∃ e, v.scope.eval v.expr = .error e) :
+    ∀ prog, createProgram pt kv mm cmUser single ≠ .ok prog := by
+  intro prog hprog
+  obtain ⟨v, hv, e, he⟩ := h
+  obtain ⟨x, hx, _⟩ := (visOutcome_ok_iff _).mp ((createProgram_tracks pt kv mm cmUser single).1 prog hprog) v hv
+  rw [he] at hx
+  cases hx
+
+/-- the judge used by the harness (`consOutcome` on the constraints only) agrees with the tracked outcome -/
+theorem judge_agrees (l : List Vis) :
+    (visOutcome l = .ok () → consOutcome ((l.filter (·.isCons)).map (fun v => (v.scope, v.expr))) = .ok ()) ∧
+    (visOutcome l = .error .constraintViolation →
+      consOutcome ((l.filter (·.isCons)).map (fun v => (v.scope, v.expr))) = .error .constraintViolation) := by
+  induction l with
+  | nil => exact ⟨fun _ => rfl, fun h => by cases h⟩
+  | cons v l ih =>
+    rw [visOutcome_cons]
+    by_cases hc : v.isCons = true
+    · have hck : checkVis v = checkOne (v.scope, v.expr) := by
+        unfold checkVis checkOne
+        simp [hc]
+      simp only [List.filter_cons, hc, if_true, List.map_cons, consOutcome, List.forM_eq_forM, List.forM_cons]
+      rw [hck]
+      constructor
+      · intro h
+        obtain ⟨u, hu, h⟩ := bind_ok.mp h
+        rw [hu, ok_bind]
+        have := ih.1 h
+        simpa [consOutcome] using this
+      · intro h
+        rcases bind_err.mp h with h | ⟨u, hu, h⟩
+        · rw [h]; rfl
+        · rw [hu, ok_bind]
+          have := ih.2 h
+          simpa [consOutcome] using this
+    · have hf : v.isCons = false := by simpa using hc
+      simp only [List.filter_cons, hf, Bool.false_eq_true, if_false]
+      have hck : Avoid CV (checkVis v) := by
+        unfold checkVis
+        refine avoid_bind (eval_noCV _ _) (fun x _ => ?_)
+        simp [hf]
+        exact avoid_ok _
+      constructor
+      · intro h
+        obtain ⟨u, _, h⟩ := bind_ok.mp h
+        exact ih.1 h
+      · intro h
+        rcases bind_err.mp h with h | ⟨u, _, h⟩
+        · exact absurd rfl (avoid_iff.mp hck _ h)
+        · exact ih.2 h
+
+/-! ## non-vacuity and the known defect classes -/
+
+/-- a template with a constraint on a mapped name below an iteration: a satisfying and a violating assignment -/
+def exampleTree : PT :=
+  .forLoop none
+    (.mapping none (.func none "A" (.lit 1) (.var "a") [] [.cmp .le (.var "a") (.lit 2)])
+      [("a", .add (.var "x") (.var "i"))] [] [("A", some "A")] [])
+    "i" (.lit 0) (.lit 2) (.lit 1) [] []
+
+example : WF exampleTree ∧ NoReservedT exampleTree := by
+  simp [exampleTree, WF, NoReservedT, parameterNames, consVars, measVars, noT, Expr.vars]
+
+/-- PF-13 (repaired in the model): the pinned `parameter_names` of an `ArithmeticAtomicPulseTemplate` omits the
+parameters of its own measurement declarations, so the declared names do not suffice -/
+theorem pf13_counterexample :
+    let pt : PT := .arithAtomic none (.func none "A" (.lit 2) (.lit 1) [] []) false (.func none "A" (.lit 2) (.lit 2) [] [])
+      [⟨"m", .var "b", .lit 1⟩]
+    parameterNamesPinned pt = [] ∧ parameterNames pt = ["b"] := by
+  decide
+
+/-- PF-14: the `NoReservedT` hypothesis of `frame` cannot be dropped — a value for the undeclared name `t`
+changes the model's result when a `ParallelChannelPulseTemplate` channel value mentions `t` -/
+theorem frame_needs_noReservedT_counterexample :
+    let pt : PT := .parallel none (.func none "A" (.lit 2) (.lit 1) [] []) [("B", .var "t")]
+    parameterNames pt = [] ∧ WF pt ∧
+      createProgram pt [] none [] [] ≠ createProgram pt [("t", 1)] none [] [] := by
+  refine ⟨by decide, by simp [WF], ?_⟩
+  intro h
+  have h1 : createProgram (.parallel none (.func none "A" (.lit 2) (.lit 1) [] []) [("B", .var "t")]) [] none [] [] =
+      .error .parameterMissing := by rfl
+  obtain ⟨x, hx⟩ : ∃ x, createProgram (.parallel none (.func none "A" (.lit 2) (.lit 1) [] []) [("B", .var "t")])
+      [("t", 1)] none [] [] = .ok x := ⟨_, rfl⟩
+  rw [h1, hx] at h
+  cases h
 
 end QP.Props.C03
